@@ -12,7 +12,9 @@ step by step against the spec by TLC (code -> spec)."""
 import concurrent.futures as cf
 import json
 import os
+import random
 import re
+import shutil
 import tempfile
 
 from vlib import core, tlc
@@ -71,12 +73,16 @@ SCENARIOS = [
          probe=[2, 5, 10], steps=(3, 4)),
     dict(name="deep", keys=sorted(set(_evens(20)) | {7, 21}), kl="KL_big42", pre="Pre_deep", act=[2, 4, 6, 7, 22, 40],
          cls=[1, 3], probe=[2, 7, 40], steps=(2, 3)),
-    dict(name="presplit", keys=sorted(set(_evens(18)) | {35, 37, 39}), kl="KL_big42", pre="Pre_presplit", act=[2, 35, 37, 39],
-         cls=[1, 3], probe=[2, 35, 39], steps=(2, 3)),
+    dict(name="presplit", keys=sorted(set(_evens(12)) | {11, 23, 25, 27}), kl="KL_big42", pre="Pre_presplit", act=[2, 11, 23, 25, 27],
+         cls=[1, 3], probe=[2, 11, 25], steps=(2, 3)),
     dict(name="deepdel", keys=sorted(set(_evens(20)) | {7}), kl="KL_big42", pre="Pre_deepdel", act=[4, 8, 12, 16, 18, 7],
          cls=[1], probe=[4, 7, 18], steps=(3, 5)),
     dict(name="sepchain", keys=range(1, 17), kl="KL_mixed16", pre="Pre_sepchain", act=[1, 2, 4, 5, 6, 9, 12], cls=[1, 3],
          probe=[2, 5, 12], steps=(2, 3)),
+    dict(name="sepmerge", keys=range(1, 13), kl="KL_mixed16", pre="Pre_sepmerge", act=[2, 3, 5, 6], cls=[1, 3],
+         probe=[2, 5, 6], steps=(2, 3)),
+    dict(name="chainsplit", keys=range(1, 45), kl="KL_chain44", pre="Pre_chainsplit", act=[1, 41, 42], cls=[1],
+         probe=[1, 20, 41], steps=(2, 3)),
     dict(name="fullparent", keys=range(1, 27), kl="KL_d3", pre="Pre_fullparent", act=[8, 9, 10, 13, 14], cls=[1, 3],
          probe=[8, 10, 14], steps=(3, 4)),
     dict(name="overpage", keys=range(1, 13), kl="KL_over12", pre="Pre_over", act=[2, 3, 4, 6, 10], cls=[1, 2, 4],
@@ -88,7 +94,7 @@ SCENARIOS = [
 # random spec behaviours (TLC -simulate): scenario, ActKeys, ActClasses, depth, (num quick, thorough)
 SIMS = [
     dict(name="two", act=range(1, 13), cls=[1, 2, 3, 4, 5], depth=40, num=(40, 600)),
-    dict(name="deep", act=sorted(set(_evens(20)) | {7, 21}), cls=[1, 3], depth=40, num=(20, 300)),
+    dict(name="deep", act=sorted(set(_evens(20)) | {7, 21}), cls=[1, 3], depth=40, num=(20, 150)),
     dict(name="sepchain", act=range(1, 17), cls=[1, 3], depth=30, num=(20, 300)),
 ]
 
@@ -96,9 +102,9 @@ SIMS = [
 REQUIRED_BRANCHES = [
     "insert_fits", "overwrite", "overwrite_frees_chain", "delete_plain", "delete_frees_chain", "delete_absent",
     "cell_chain_written", "key_chain_written", "split_leaf", "split_leaf_on_overwrite", "split_internal", "new_root",
-    "redist_leaf_from_left", "redist_leaf_from_right", "redist_refused", "redist_refused_parent_full", "merge_leaf",
-    "root_collapses", "alloc_extend", "alloc_reuse", "free_first_trunk", "free_entry", "sep_with_chain_replaced",
-    "reopen",
+    "redist_leaf_from_left", "redist_leaf_from_right", "redist_internal_from_right", "redist_refused",
+    "redist_refused_parent_full", "merge_leaf", "merge_internal", "merge_frees_sep_chain", "root_collapses", "alloc_extend",
+    "alloc_extend_list_empty", "alloc_reuse", "free_first_trunk", "free_entry", "sep_with_chain_replaced", "reopen",
 ]
 
 
@@ -119,12 +125,67 @@ def scenario_cfg(sc, steps, export=True, act=None, cls=None, small=False):
     return tlc.cfg_variant("btree", "BTreeMC.cfg", subst=subst, add=add), subst
 
 
-def run_tlc(name, text, subst, tier, **kw):
-    r = tlc.run("btree", "BTreeMC", "BTreeMC_%s.cfg" % name, cfg_text=text, coverage=False, timeout=kw.pop("timeout", 2400),
-                out_name="c18_%s_%s" % (name, tier), **kw)
+def run_tlc(name, text, subst, tier, subdir="btree", module="BTreeMC", **kw):
+    """One TLC run (invariants + export). A violated invariant of the *model* is not a verdict: the run is
+    repeated with -continue so that every explored transition is still exported; the caller replays them and
+    only a reproduction on the real tree counts (DESIGN §6)."""
+    args = dict(cfg_text=text, coverage=False, timeout=kw.pop("timeout", 2400), out_name="c18_%s_%s" % (name, tier), xmx="4g",
+                must_pass=False)
+    r = tlc.run(subdir, module, "%s_%s.cfg" % (module, name), **args, **kw)
+    if r["violated"]:
+        core.log("[C18] model invariant %s violated in scenario %s: exporting with -continue, replay decides" % (r["violated"], name))
+        model_violation = list(r["violated"])
+        r = tlc.run(subdir, module, "%s_%s.cfg" % (module, name), extra=["-continue"], **args, **kw)
+        r["model_violation"] = model_violation
+    elif r["exit"] != 0 or r["errors"]:
+        raise core.ToolError("TLC failed on scenario %s (exit %s): %s (see %s)" % (name, r["exit"], r["errors"][:3], r["out"]))
     r["constants"] = ["%s=%s" % (k, v) for k, v in sorted(subst.items())] + ["Quirks=" + quirks()]
     r["invariants"] = tlc._parse_cfg_list(os.path.join(core.SPEC, "btree", "BTreeMC.cfg"), "INVARIANT")
     return r
+
+
+def gen_scenarios(ctx, n):
+    """Seeded random preloads (mixed key lengths per user key, random inserts / overwrites / deletes) written as a
+    TLA+ module next to copies of the spec; TLC then explores every program of a few steps around each of them."""
+    rng = random.Random(ctx.seed * 7919 + 13)
+    gdir = os.path.join(core.WORK, "tlcgen_%d" % os.getpid())
+    shutil.rmtree(gdir, ignore_errors=True)
+    os.makedirs(gdir)
+    for f in ("BTree.tla", "BTreeMC.tla"):
+        shutil.copy(os.path.join(core.SPEC, "btree", f), gdir)
+    defs, scs = [], []
+    for i in range(n):
+        nk = rng.choice([12, 16, 20, 24])
+        pair = [rng.choice([18, 18, 300, 960, 999, 1200, 1200, 5000]) for _ in range(nk // 2)]
+        kl = [pair[j // 2] for j in range(nk)]
+        pre, present = [], set()
+        for _ in range(rng.randint(10, 36)):
+            k = rng.randint(1, nk)
+            if k in present and rng.random() < 0.3:
+                pre.append('<<"D", %d, 0>>' % k)
+                present.discard(k)
+            else:
+                pre.append('<<"I", %d, %d>>' % (k, rng.choice([1, 1, 2, 3, 3, 4, 5])))
+                present.add(k)
+        inside = sorted(present)
+        outside = sorted(set(range(1, nk + 1)) - present)
+        act = sorted(set(rng.sample(inside, min(3, len(inside))) + rng.sample(outside, min(2, len(outside)))))
+        defs.append("KL_g%d == <<%s>>\nPre_g%d == <<%s>>" % (i, ", ".join(map(str, kl)), i, ", ".join(pre)))
+        scs.append(dict(name="g%d" % i, keys=range(1, nk + 1), kl="KL_g%d" % i, pre="Pre_g%d" % i, act=act, cls=[1, 3],
+                        probe=act[:3], steps=(2, 2)))
+    with open(os.path.join(gdir, "BTreeGen.tla"), "w") as f:
+        f.write("---- MODULE BTreeGen ----\nEXTENDS BTreeMC\n%s\n====\n" % "\n".join(defs))
+    tlc.sany(os.path.join(gdir, "BTreeGen.tla"))
+    return gdir, scs
+
+
+def vacuous(ctx, what):
+    """Vacuity guard. Cases end at their first violation, so after a violation the coverage counters say nothing
+    about the tooling: the verdict stands and the guard only logs."""
+    if ctx.violations:
+        core.log("[C18] coverage guard skipped after violations: " + what)
+    else:
+        raise core.ToolError(what)
 
 
 def flat_signature(f):
@@ -224,19 +285,27 @@ def run(ctx):
         text, subst = scenario_cfg(sc, sm["depth"], act=sm["act"], cls=sm["cls"])
         jobs.append(("sim_" + sm["name"], text, subst,
                      dict(mode="sim", sim=ctx.pick(*sm["num"]), depth=sm["depth"], seed=ctx.seed, workers=2)))
+    # seeded random preloads, every program of two steps around each
+    gdir, gens = gen_scenarios(ctx, ctx.pick(3, 30))
+    for sc in gens:
+        text, subst = scenario_cfg(sc, 2)
+        jobs.append((sc["name"], text, subst, dict(workers=2, subdir=os.path.relpath(gdir, core.SPEC), module="BTreeGen")))
     # the same module with a 256-byte page and 3 entries per trunk page: model only, deeper
-    tiny = dict(name="tiny", keys=range(1, 11), kl="KL_tiny10", pre="Pre_empty", act=ctx.pick([1, 3, 5, 7], [1, 2, 3, 5, 7, 9]),
-                cls=ctx.pick([1, 3], [1, 2, 3]), probe=[1, 3, 7])
-    text, subst = scenario_cfg(tiny, ctx.pick(4, 5), export=False, small=True)
-    jobs.append(("tiny", text, subst, dict(workers=ctx.pick(3, 4))))
+    tinies = [("tiny", [1, 3, 5, 7], [1, 3])] + ctx.pick([], [("tiny2", [3, 4, 7, 8], [1, 2]), ("tiny3", [1, 2, 3, 9], [2, 3])])
+    for tname, act, cls in tinies:
+        tiny = dict(name=tname, keys=range(1, 11), kl="KL_tiny10", pre="Pre_empty", act=act, cls=cls, probe=[1, 3, 7])
+        text, subst = scenario_cfg(tiny, ctx.pick(4, 5), export=False, small=True)
+        jobs.append((tname, text, subst, dict(workers=ctx.pick(3, 4))))
 
     with cf.ThreadPoolExecutor(max_workers=ctx.pick(4, 3)) as ex:
         futs = [(name, ex.submit(run_tlc, name, text, subst, ctx.tier, **kw)) for name, text, subst, kw in jobs]
         results = [(name, f.result()) for name, f in futs]
+    shutil.rmtree(gdir, ignore_errors=True)
+    model_violations = [(name, r["model_violation"]) for name, r in results if r.get("model_violation")]
     outs_both, outs_bw = [], []
     for name, r in results:
         ctx.add_tlc(r)
-        if name == "tiny":
+        if name.startswith("tiny"):
             os.remove(r["out"])
             continue
         only_bw = any(s["name"] == name and s.get("cmp") == "bytewise" for s in SCENARIOS)
@@ -258,18 +327,20 @@ def run(ctx):
         ctx.cov["spec_known_not_reproduced"] = ctx.cov.get("spec_known_not_reproduced", 0) + s["extra"]["spec_known_not_reproduced"]
     for o in outs_both + outs_bw:
         os.remove(o)
+    if model_violations and not ctx.violations and not ctx.known_hits:
+        raise core.ToolError("model invariants violated but nothing reproduced on the real tree: %s" % model_violations)
     ctx.cov["exported_programs"] = exported
     ctx.cov["spec_branches_replayed"] = branches
     missing = [b for b in REQUIRED_BRANCHES if branches.get(b, 0) == 0]
     if missing:
-        raise core.ToolError("branches of the spec never replayed on the real tree: %s" % missing)
+        vacuous(ctx, "branches of the spec never replayed on the real tree: %s" % missing)
 
     # 3. code -> spec: long random programs on the real tree, traces validated by TLC --------------
     tdir = os.path.join(core.WORK, "tmp", "c18_traces_%d" % os.getpid())
     os.makedirs(tdir, exist_ok=True)
     for f in os.listdir(tdir):
         os.remove(os.path.join(tdir, f))
-    ncases, nops, ntrace = ctx.pick((36, 2000, 12), (360, 3000, 36))
+    ncases, nops, ntrace = ctx.pick((36, 2000, 12), (720, 3000, 48))
     s = core.run_driver("btree_run", ["random", "--seed", ctx.seed, "--cases", ncases, "--ops", nops, "--trace-dir", tdir,
                                       "--trace-cases", ntrace, "--workers", min(core.NCPU, 12)], timeout=3000)
     if s["extra"].get("tool_errors"):
@@ -282,12 +353,12 @@ def run(ctx):
                             ("key chains", st["key_chain_seen"] > 0), ("free-list reuse", st["free_reuse"] > 0),
                             ("reopen", st["reopens"] > 0), ("node merges", st["node_shrink"] > 0)) if not ok]
     if weak:
-        raise core.ToolError("random programs no longer reach: %s" % weak)
+        vacuous(ctx, "random programs no longer reach: %s" % weak)
     ntr, events = validate_traces(ctx, tdir)
     ctx.cov["traces_validated_against_impl"] += ntr
     ctx.cov["trace_events_validated"] = events
     if ntr == 0:
-        raise core.ToolError("no trace was recorded")
+        vacuous(ctx, "no trace was recorded")
     for f in os.listdir(tdir):
         os.remove(os.path.join(tdir, f))
     os.rmdir(tdir)
